@@ -183,8 +183,11 @@ impl<'a, N: Normalizer> XmlSerializer<'a, N> {
                 r
             }
             Prefix(prefix_id, namespace_id) => {
-                // an attribute xmlns:xmlns is not a declaration anyone can read
-                if self.xot.prefix_str(*prefix_id) == "xmlns" {
+                // an attribute xmlns:xmlns is not a declaration anyone can read,
+                // and the namespace of xmlns itself cannot be bound to anything
+                if self.xot.prefix_str(*prefix_id) == "xmlns"
+                    || self.xot.namespace_str(*namespace_id) == "http://www.w3.org/2000/xmlns/"
+                {
                     return Err(Error::InvalidOperation(format!(
                         "Cannot serialize a declaration of the reserved prefix {}",
                         self.xot.prefix_str(*prefix_id)
